@@ -354,7 +354,11 @@ func (p *ProjectRunner) getDoneOrRunningProcess(name string) *Process {
 		return doneProc
 	}
 	verifPointR(p, "lookup_mid", name)
-	return p.getRunningProcess(name)
+	if runningProc := p.getRunningProcess(name); runningProc != nil {
+		return runningProc
+	}
+	// it may have moved from running to done between the two lookups
+	return p.getDoneProcess(name)
 }
 
 func (p *ProjectRunner) removeRunningProcess(process *Process) {
